@@ -39,7 +39,7 @@ pub enum Op {
     Brk(Arg),
     Store(Addr),
     Load(Addr),
-    /// the HOST maps 16 bytes at heap base + 0x2000 while the heap already exists (an area that
+    /// the HOST maps 16 bytes at heap base + 0x2800 (not page aligned) while the heap already exists (an area that
     /// is younger than the heap): from then on the break cannot pass it
     MapAbove,
 }
@@ -166,6 +166,7 @@ impl Spec for C13 {
             Op::Brk(Arg::HPlus(0x10)),
             Op::Brk(Arg::HPlus(0x1000)),
             Op::Brk(Arg::HPlus(0x1001)),
+            Op::Brk(Arg::HPlus(0x2400)),
             Op::Brk(Arg::HPlus(0x3000)),
             Op::Brk(Arg::K),
             Op::Brk(Arg::Below(0x10)),
@@ -176,7 +177,7 @@ impl Spec for C13 {
             v.push(Op::Load(a));
         }
         if let Some(h) = m.h {
-            if !m.others.iter().any(|(s, _)| *s == h + 0x2000) {
+            if !m.others.iter().any(|(s, _)| *s == h + 0x2800) {
                 v.push(Op::MapAbove);
             }
         }
@@ -286,7 +287,7 @@ impl Spec for C13 {
             }
             Op::MapAbove => {
                 let h = m.h.unwrap();
-                let at = h + 0x2000;
+                let at = h + 0x2800;
                 if m.k > at || m.others.iter().any(|(s, l)| overlaps(at, 0x10, *s, *l)) {
                     return Ok(None); // no room there in this state
                 }
